@@ -18,7 +18,7 @@ func init() {
 			"C16.3 the store into tcpConnections is dominated by the completed scan of all allocations for that id, with Manager.lock held continuously from scan to store; " +
 			"C16.4 every stored connection gets a bind timer armed with m.tcpConnectionBindTimeout (default constant 30 s) whose closure removes that connection unless isBound; the timer is armed inside the critical section that publishes the connection (typestate E7); " +
 			"C16.5 (=C02.2) inbound connections are registered only for permitted peers; " +
-			"C16.6 the two io.Copy calls connect the peer connection obtained from GetTCPConnection and the client's data connection in opposite directions, each in its own goroutine, and both connections are closed after the first copy ends; " +
+			"C16.6 the two copies (io.Copy, or a hand-written relay loop shown to be a faithful copier: reads its source only, writes exactly buf[:n] of the read of the same iteration, and writes them before it looks at the read error) connect the peer connection obtained from GetTCPConnection and the client's data connection in opposite directions, each in its own goroutine, and both connections are closed after the first copy ends; " +
 			"C16.7 ErrDupeTCPConnection is answered 446 and ErrTCPConnectionTimeoutOrFailure 447; " +
 			"C16.8 isDupeTCPConnection compares the remote address of every registered connection of the allocation (no iteration is skipped).",
 		NotCovered: "byte-stream integrity of io.Copy; the timing of the 30 s deadline; what the relay generator's AllocateConn does.",
